@@ -80,15 +80,19 @@ def msgRecvPacket (s : State) (p : Packet) (π : Proof) (h : Nat) (errText : Str
           ({ core := r.1, apps := a, cbLog := log }, r.2)
     else ({ s with core := c }, .ok)
 
-/-- `msgServer.Acknowledgement` -/
+/-- `msgServer.Acknowledgement`: the application callback (and the route lookup) only on the
+    packet's source chain; a relay chain just passes the acknowledgement on -/
 def msgAcknowledgement (s : State) (p : Packet) (ack : Data) (π : Proof) (h : Nat) : State × Res :=
-  if !routed p.port then (s, .err .invalidRoute)
+  let isSource := p.src == s.core.name
+  if isSource && !routed p.port then (s, .err .invalidRoute)
   else
     match s.core.acknowledgePacket H p ack π h with
     | (c, .err e) => ({ s with core := c }, .err e)
     | (c, .ok) =>
-      let r := appOnAck Hc s.apps p ack
-      ({ core := c, apps := r.1, cbLog := s.cbLog ++ [⟨"ack", p.port, p.key⟩] }, r.2)
+      if isSource then
+        let r := appOnAck Hc s.apps p ack
+        ({ core := c, apps := r.1, cbLog := s.cbLog ++ [⟨"ack", p.port, p.key⟩] }, r.2)
+      else ({ s with core := c }, .ok)
 
 /-- stateless `ValidateBasic` of each message -/
 def validateBasic : Msg → Res
